@@ -72,7 +72,8 @@ def directed(tier):
     rng = random.Random(777)
     n = 0
     for version in (10, 3):
-        for size in (0, 1, 2, 254, 255, 256, 257):
+        for size in ((0, 1, 2, 254, 255, 256, 257) if tier == 'quick' else
+                     (0, 1, 2, 3, 4, 5, 127, 128, 253, 254, 255, 256, 257, 258, 259, 511, 512, 513, 600)):
             if version < 4 and size > 255:
                 continue
             for dup in (0.0, 1.0):
